@@ -159,7 +159,10 @@ def flow_limit(tab, dp_pa):
     if dp_pa >= rows[-1][0]:
         return None
     if dp_pa <= rows[0][0]:
-        return rows[0][1] * (dp_pa / rows[0][0]) ** (1 / 1.8)
+        # the limit lies below the tabulated range: what the flow limit is
+        # there is not defined by the table (the code clamps to the lowest
+        # tabulated flow); not judged - see DESIGN.md 11.7
+        return None
     for (d0, f0), (d1, f1) in zip(rows, rows[1:]):
         if d0 <= dp_pa <= d1:
             return f0 + (f1 - f0) * (dp_pa - d0) / (d1 - d0)
